@@ -53,6 +53,9 @@ def render_models(sig, names, app):
                 args.append(repr(str(names.rel(fs['rel'])) if '.' not in fs['rel']
                                  else fs['rel']))
                 attrs.pop('null', None)
+            if 'db_column' in attrs:
+                from .absmodel import resolve_col
+                attrs['db_column'] = resolve_col(attrs['db_column'], names)
             for k in sorted(attrs):
                 v = attrs[k]
                 if isinstance(v, str) and v.startswith('@'):
@@ -122,6 +125,9 @@ def render_mutation(mu, names, palette=None):
             v = as_dict(attrs)[key]
             if key == 'related_model':
                 v = names.rel(v) if '.' not in v else v
+            if key == 'db_column':
+                from .absmodel import resolve_col
+                v = resolve_col(v, names)
             parts.append('%s=%r' % (key, v))
         return parts
     if k == 'Add':
@@ -144,9 +150,13 @@ def render_mutation(mu, names, palette=None):
     if k == 'Del':
         return 'DeleteField(%r, %r)' % (names.model(mu['m']), names.field(mu['f']))
     if k == 'RenF':
-        return 'RenameField(%r, %r, %r)' % (names.model(mu['m']),
-                                            names.field(mu['of']),
-                                            names.field(mu['nf']))
+        extra = ''
+        if mu.get('dbcol', NONE) not in (NONE, None):
+            from .absmodel import resolve_col
+            extra = ', db_column=%r' % resolve_col(mu['dbcol'], names)
+        return 'RenameField(%r, %r, %r%s)' % (names.model(mu['m']),
+                                              names.field(mu['of']),
+                                              names.field(mu['nf']), extra)
     if k == 'RenM':
         return 'RenameModel(%r, %r, db_table=%r)' % (
             names.model(mu['om']), names.model(mu['nm']),
